@@ -1,9 +1,30 @@
 /* line-protocol driver: mptcore/queue (C13).  Calls the real functions in-process. */
 #include "drv_util.h"
 #include <errno.h>
+#include <sys/uio.h>
 #include "queue.h"
+#include "message.h"
 
 static MPT_STRUCT(queue) q;
+
+/* `q save <k>`: the descriptor takes at most k bytes in one writev (linked with -Wl,--wrap=writev) */
+static size_t writev_limit = (size_t) -1;
+ssize_t __real_writev(int fd, const struct iovec *iov, int cnt);
+ssize_t __wrap_writev(int fd, const struct iovec *iov, int cnt)
+{
+	struct iovec tmp[8];
+	size_t left = writev_limit;
+	int i, n = 0;
+	if (left == (size_t) -1 || cnt > 8) return __real_writev(fd, iov, cnt);
+	for (i = 0; i < cnt && left; i++) {
+		tmp[n] = iov[i];
+		if (tmp[n].iov_len > left) tmp[n].iov_len = left;
+		left -= tmp[n].iov_len;
+		n++;
+	}
+	if (!n) return 0;
+	return __real_writev(fd, tmp, n);
+}
 
 /* logical content read independently of the library: base[(off+i) % max] */
 static void put_content(void)
@@ -113,10 +134,11 @@ int main(void)
 			size_t left = mpt_queue_prepare(&q, a);
 			if (q.max > old) memset(((uint8_t *) q.base) + old, 0, q.max - old);
 			snprintf(buf, sizeof(buf), "%zu", left);
-			result("ok", 0, 0, buf);
+			/* the caller learns whether the space asked for is there */
+			result(left >= a ? "ok" : "refused", 0, 0, buf);
 		}
 		else if (!strcmp(op, "find") && drv_nw == 3) {
-			if (drv_parse_data(drv_w[2], &dat, &dlen, &isnull) || isnull) { puts("bad-op"); continue; }
+			if (drv_parse_data(drv_w[2], &dat, &dlen, &isnull) || isnull || !dlen) { puts("bad-op"); free(dat); continue; }
 			needle = dat; needle_len = dlen;
 			errno = 0;
 			uint8_t *p = mpt_queue_find(&q, dlen, cmp_needle, 0);
@@ -152,10 +174,14 @@ int main(void)
 			if (r < 0) result("refused", 0, 0, r == -2 ? "BadValue" : "ERR?");
 			else { char v[48], i[32]; snprintf(v, sizeof(v), "ok n=%zd", r); snprintf(i, sizeof(i), "%zd", r); result(v, 0, 0, i); }
 		}
-		else if (!strcmp(op, "save") && drv_nw == 2) {
+		else if (!strcmp(op, "save") && (drv_nw == 2 || drv_nw == 3)) {
+			/* q save [k]: everything the queue holds goes to a pipe; with k the descriptor accepts at most k bytes */
 			int fd[2];
-			if (q.len > 60000 || pipe(fd)) { puts("bad-op"); continue; }
+			a = (size_t) -1;
+			if ((drv_nw == 3 && drv_parse_nat(drv_w[2], &a)) || q.len > 60000 || pipe(fd)) { puts("bad-op"); continue; }
+			writev_limit = a;
 			ssize_t r = mpt_queue_save(&q, fd[1]);
+			writev_limit = (size_t) -1;
 			close(fd[1]);
 			uint8_t *buf = malloc(65536);
 			ssize_t got = read(fd[0], buf, 65536);
@@ -163,6 +189,22 @@ int main(void)
 			if (r < 0) result("refused", 0, 0, "ERR?");
 			else { char v[48], i[32]; snprintf(v, sizeof(v), "ok n=%zd", r); snprintf(i, sizeof(i), "%zd", r); result(v, buf, got > 0 ? (size_t) got : 0, i); }
 			free(buf);
+		}
+		else if (!strcmp(op, "mget") && (drv_nw == 4 || (drv_nw == 5 && !strcmp(drv_w[4], "novec")))) {
+			/* q mget <off> <take> [novec]: view of the content through mpt_message_get (as decode_queue::current_message does) */
+			if (drv_parse_nat(drv_w[2], &a) || drv_parse_nat(drv_w[3], &b)) { puts("bad-op"); continue; }
+			MPT_STRUCT(message) msg = MPT_MESSAGE_INIT;
+			struct iovec vec = { 0, 0 };
+			int r = mpt_message_get(&q, a, b, &msg, drv_nw == 5 ? 0 : &vec);
+			if (r < 0) result("refused", 0, 0, drv_errname(r));
+			else {
+				uint8_t *buf = malloc(b ? b : 1);
+				size_t n = msg.used;
+				memcpy(buf, msg.base, n);
+				if (r > 0) { memcpy(buf + n, vec.iov_base, vec.iov_len); n += vec.iov_len; }
+				result("ok", buf, n, r ? "1" : "0");
+				free(buf);
+			}
 		}
 		else puts("bad-op");
 	}
